@@ -144,7 +144,9 @@ def gen_workspace(rng, *, max_channels=3, max_samples=3, max_bins=4, mods=None,
             params.append(lc)
         # fix some scalar constrained parameters
         for n, t in sorted(used):
-            if t == "normsys" and rng.random() < 0.15 and not any(p["name"] == n for p in params):
+            # (the XML format lists constant parameters separated by blanks: a name with a blank cannot be expressed there)
+            if t in ("normsys", "histosys", "shapefactor") and rng.random() < 0.15 and not any(p["name"] == n for p in params) \
+                    and not any(ch.isspace() for ch in n):
                 params.append({"name": n, "fixed": True})
         poi = "mu" if (mi == 0 or extra_nf not in used_names or rng.random() < 0.6) else extra_nf
         rng.shuffle(params)
